@@ -60,6 +60,32 @@ func concatParts(v ssa.Value, depth int) []ssa.Value {
 	case *ssa.Call:
 		if f := x.Call.StaticCallee(); f != nil {
 			switch qualName(f) {
+			case "strings.Join":
+				// strings.Join([]string{a, b, c}, sep)
+				if sl, ok := x.Call.Args[0].(*ssa.Slice); ok {
+					if els := arrayElems(sl.X); len(els) > 0 {
+						var out []ssa.Value
+						for i, e := range els {
+							if i > 0 {
+								if s, isC := constString(x.Call.Args[1]); !isC || s != "" {
+									out = append(out, x.Call.Args[1])
+								}
+							}
+							out = append(out, concatParts(e, depth+1)...)
+						}
+						return out
+					}
+				}
+			case "strings.(Builder).String", "bytes.(Buffer).String":
+				// straight-line accumulation in the block(s) of this function
+				ci := callInfo(x, nil, 0)
+				if ws := accumulatorWrites(x.Parent(), ci.Recv()); len(ws) > 0 {
+					var out []ssa.Value
+					for _, w := range ws {
+						out = append(out, concatParts(w, depth+1)...)
+					}
+					return out
+				}
 			case "path.Join", "path/filepath.Join", "fmt.Sprintf", "fmt.Sprint", modPath + "/varutil.FullPath":
 				var out []ssa.Value
 				for _, a := range x.Call.Args {
@@ -93,21 +119,20 @@ func concatParts(v ssa.Value, depth int) []ssa.Value {
 	return []ssa.Value{v}
 }
 
+// pathTransparent: the default pure helpers plus the reducer (marked in the
+// origin's Path so that the state can be read off).
+func pathTransparent(ci *CallInfo) []ssa.Value {
+	if ci.Static != nil && qualName(ci.Static) == reduceFn {
+		return []ssa.Value{ci.Arg(0)}
+	}
+	return defaultTransparent(ci)
+}
+
 // classifyLeaves computes the leaves of one concatenation part.  atBlock is
 // where the value is consumed (for the error guard of the reducer).
 func classifyLeaves(f *ssa.Function, facts *Facts, part ssa.Value, atBlock *ssa.BasicBlock) []PartLeaf {
-	stop := func(v ssa.Value) (Origin, bool) {
-		if ex, ok := v.(*ssa.Extract); ok && ex.Index == 0 {
-			if c, ok := ex.Tuple.(*ssa.Call); ok {
-				if cf := c.Call.StaticCallee(); cf != nil && qualName(cf) == reduceFn {
-					return Origin{Kind: "reduced", Name: "ReduceAbsPath"}, true
-				}
-			}
-		}
-		return Origin{}, false
-	}
 	var out []PartLeaf
-	for _, o := range Origins(part, FlowOpts{Stop: stop, Interproc: 2}) {
+	for _, o := range Origins(part, FlowOpts{Transparent: pathTransparent, Interproc: 2}) {
 		pl := PartLeaf{Origin: o, State: "other"}
 		switch o.Kind {
 		case "const", "nil", "zero":
@@ -118,31 +143,16 @@ func classifyLeaves(f *ssa.Function, facts *Facts, part ssa.Value, atBlock *ssa.
 				pl.Param = p
 				pl.State = "raw"
 				for _, st := range o.Path {
-					if cleanerNames[st] {
+					if cleanerNames[st] && pl.State == "raw" {
 						pl.State = "cleaned"
 					}
+					if st == "ReduceAbsPath" {
+						pl.State = "reduced"
+					}
 				}
-			}
-		case "reduced":
-			pl.NonConst = true
-			pl.State = "reduced"
-			ex := o.Val.(*ssa.Extract)
-			call := ex.Tuple.(*ssa.Call)
-			// which parameter was reduced
-			for _, oo := range Origins(call.Call.Args[0], FlowOpts{Stop: stop, Interproc: 2}) {
-				if p, ok := oo.Val.(*ssa.Parameter); ok && oo.Kind == "param" {
-					pl.Param = p
+				if pl.State == "reduced" && !reducerGuarded(f, facts, o.Via, atBlock) {
+					pl.State = "reduced-unguarded"
 				}
-			}
-			// guard: the reducer's error is known nil where the value is used
-			guarded := false
-			for _, e := range resultN(call, 1) {
-				if facts.KnownNil(atBlock, e, true) {
-					guarded = true
-				}
-			}
-			if !guarded {
-				pl.State = "reduced-unguarded"
 			}
 		default:
 			pl.NonConst = true
@@ -150,6 +160,80 @@ func classifyLeaves(f *ssa.Function, facts *Facts, part ssa.Value, atBlock *ssa.
 		out = append(out, pl)
 	}
 	return out
+}
+
+// reducerGuarded: the error of every ReduceAbsPath call crossed on the way is
+// known nil where the value is consumed.  A reducer call inside a (nested)
+// helper is accepted when every helper on the way never returns a
+// possibly-nil error after the failure, and the analysed function has checked
+// the outermost helper's error where it consumes the value.
+func reducerGuarded(f *ssa.Function, facts *Facts, via []*ssa.Call, atBlock *ssa.BasicBlock) bool {
+	for idx, c := range via {
+		cf := c.Call.StaticCallee()
+		if cf == nil || qualName(cf) != reduceFn {
+			continue
+		}
+		cur := c
+		pos := idx
+		for {
+			if cur.Parent() == f {
+				if !callErrKnownNil(facts, cur, atBlock) {
+					return false
+				}
+				break
+			}
+			g := cur.Parent()
+			var cerr ssa.Value
+			if ei := errResultIndex(cur.Call.Signature()); ei >= 0 {
+				for _, e := range resultN(cur, ei) {
+					cerr = e
+				}
+			}
+			if cerr == nil || !failurePropagates(g, cerr) {
+				return false
+			}
+			// the frame that entered g
+			var frame *ssa.Call
+			for j := pos - 1; j >= 0; j-- {
+				if via[j].Call.StaticCallee() == g {
+					frame, pos = via[j], j
+					break
+				}
+			}
+			if frame == nil {
+				return false
+			}
+			cur = frame
+		}
+	}
+	return true
+}
+
+// failurePropagates: in g, wherever errVal may be non-nil, the function
+// returns a non-nil error (it never reports success after that failure).
+func failurePropagates(g *ssa.Function, errVal ssa.Value) bool {
+	gf := factsFor(g)
+	for _, r := range returnsOf(g) {
+		if gf.KnownNil(r.Block(), errVal, true) {
+			continue
+		}
+		n := len(r.Results)
+		if n == 0 || !isErrorType(r.Results[n-1].Type()) {
+			return false
+		}
+		ev := resolve(r.Results[n-1])
+		switch {
+		case ev == errVal || sameValue(ev, errVal):
+		case gf.KnownNil(r.Block(), ev, false):
+		case isNilConst(ev):
+			return false
+		default:
+			if _, isCall := ev.(*ssa.Call); !isCall {
+				return false
+			}
+		}
+	}
+	return true
 }
 
 func isStringy(t types.Type) bool {
@@ -180,8 +264,8 @@ func sinkUses(f *ssa.Function) []SinkUse {
 	}
 	mk := func(v ssa.Value, b *ssa.BasicBlock) [][]PartLeaf {
 		var parts [][]PartLeaf
-		for _, pv := range concatParts(v, 0) {
-			parts = append(parts, classifyLeaves(f, facts, pv, b))
+		for _, pc := range concatPartsIP(v, nil, 0) {
+			parts = append(parts, classifyLeavesIP(f, facts, pc, b))
 		}
 		return parts
 	}
@@ -305,6 +389,107 @@ func stringParams(f *ssa.Function) []*ssa.Parameter {
 		if isStringy(p.Type()) {
 			out = append(out, p)
 		}
+	}
+	return out
+}
+
+// partCtx: a concatenation part found inside helper frames (outermost first).
+type partCtx struct {
+	v      ssa.Value
+	frames []*ssa.Call
+}
+
+// concatPartsIP: concatParts that also looks into same-module helpers that
+// build the string (a call whose result is the concatenation), keeping the
+// call frames so that the helper's parameters can be mapped back.
+func concatPartsIP(v ssa.Value, frames []*ssa.Call, depth int) []partCtx {
+	var out []partCtx
+	for _, p := range concatParts(v, 0) {
+		if depth < 2 {
+			var call *ssa.Call
+			idx := 0
+			switch x := p.(type) {
+			case *ssa.Extract:
+				call, _ = x.Tuple.(*ssa.Call)
+				idx = x.Index
+			case *ssa.Call:
+				call = x
+			}
+			if call != nil {
+				if cf := call.Call.StaticCallee(); cf != nil && inModule(cf) && cf.Blocks != nil && qualName(cf) != reduceFn {
+					if _, pure := pureStringFuncs[qualName(cf)]; !pure {
+						// the (single) return that yields a non-constant string
+						var val ssa.Value
+						n := 0
+						for _, r := range returnsOf(cf) {
+							if idx < len(r.Results) && isStringy(r.Results[idx].Type()) {
+								if _, isC := r.Results[idx].(*ssa.Const); !isC {
+									val = r.Results[idx]
+									n++
+								}
+							}
+						}
+						if n == 1 {
+							out = append(out, concatPartsIP(val, append(append([]*ssa.Call{}, frames...), call), depth+1)...)
+							continue
+						}
+					}
+				}
+			}
+		}
+		out = append(out, partCtx{p, frames})
+	}
+	return out
+}
+
+// classifyLeavesIP: classify the leaves of a part found inside helper frames;
+// helper parameters are mapped back through the frames to the analysed
+// function's own values.
+func classifyLeavesIP(f *ssa.Function, facts *Facts, pc partCtx, atBlock *ssa.BasicBlock) []PartLeaf {
+	if len(pc.frames) == 0 {
+		return classifyLeaves(f, facts, pc.v, atBlock)
+	}
+	frame := pc.frames[len(pc.frames)-1]
+	g := frame.Call.StaticCallee()
+	var out []PartLeaf
+	for _, o := range Origins(pc.v, FlowOpts{Transparent: pathTransparent, Interproc: 1}) {
+		if p, ok := o.Val.(*ssa.Parameter); ok && o.Kind == "param" && p.Parent() == g {
+			// map to the caller's argument
+			for i, q := range g.Params {
+				if q != p || i >= len(frame.Call.Args) {
+					continue
+				}
+				for _, l := range classifyLeavesIP(f, facts, partCtx{frame.Call.Args[i], pc.frames[:len(pc.frames)-1]}, atBlock) {
+					// merge the steps crossed inside the helper
+					l.Origin.Path = append(append([]string{}, l.Origin.Path...), o.Path...)
+					l.Origin.Via = append(append(append([]*ssa.Call{}, l.Origin.Via...), frame), o.Via...)
+					if l.Param != nil {
+						st := l.State
+						for _, step := range o.Path {
+							if cleanerNames[step] && st == "raw" {
+								st = "cleaned"
+							}
+							if step == "ReduceAbsPath" {
+								st = "reduced"
+							}
+						}
+						if st == "reduced" && !reducerGuarded(f, facts, l.Origin.Via, atBlock) {
+							st = "reduced-unguarded"
+						}
+						l.State = st
+					}
+					out = append(out, l)
+				}
+			}
+			continue
+		}
+		pl := PartLeaf{Origin: o, State: "other"}
+		switch o.Kind {
+		case "const", "nil", "zero":
+		default:
+			pl.NonConst = true
+		}
+		out = append(out, pl)
 	}
 	return out
 }
